@@ -204,6 +204,7 @@ def RpcResult.ofExcept : Except ResolveErr Authz → RpcResult
   | .ok z => .ok z
 
 theorem mem_policiesForV (U : Doc → Prop) (hsvc : ∀ x, U (svcDoc x)) (hnode : ∀ x, U (nodeDoc x))
+    (htp : ∀ x, U (tpDoc x))
     (role : Bytes → Option Role) (doc : Bytes → Option Doc) (hdoc : ∀ k d, doc k = some d → U d)
     (dc : Bytes) (t : Token) : ∀ d ∈ policiesForV role doc dc t, U d := by
   intro d hd
@@ -211,11 +212,10 @@ theorem mem_policiesForV (U : Doc → Prop) (hsvc : ∀ x, U (svcDoc x)) (hnode 
   split at hd
   · cases hd
   · have := mem_filterByScope hd
-    simp only [List.mem_append, List.mem_filterMap, List.mem_map] at this
-    rcases this with ⟨id, _, h⟩ | ⟨x, _, rfl⟩ | ⟨x, _, rfl⟩
+    simp only [List.mem_append, List.mem_filterMap] at this
+    rcases this with ⟨id, _, h⟩ | h
     · exact hdoc id d h
-    · exact hsvc x
-    · exact hnode x
+    · exact mem_synthDocs U hsvc hnode htp _ _ d h
 
 theorem compileRpc_spec {U : Doc → Prop} (hV : Versioned U) (st : RpcState) (hc : CacheInv U st.caches)
     (ds : List Doc) (hU : ∀ d ∈ ds, U d) :
@@ -244,6 +244,7 @@ theorem doc_of_window {U : Doc → Prop} {trace : List Snap} (hU : ∀ p ∈ tra
 
 /-- the part after the identity: roles, policies, compile -/
 theorem resolveLinks_up_spec (U : Doc → Prop) (hV : Versioned U) (hsvc : ∀ x, U (svcDoc x)) (hnode : ∀ x, U (nodeDoc x))
+    (htp : ∀ x, U (tpDoc x))
     (cfg : RpcCfg) (hna : cfg.isAsync = false) (trace : List Snap) (now : Nat) (s : Store) (st : RpcState)
     (inv : RpcInv U trace now st) (hcur : (now, s) ∈ trace) (t : Token) :
     (resolveLinks cfg true s now st t).2 =
@@ -253,10 +254,10 @@ theorem resolveLinks_up_spec (U : Doc → Prop) (hV : Versioned U) (hsvc : ∀ x
     RpcInv U trace now (resolveLinks cfg true s now st t).1 := by
   have hdocU : ∀ k d, viewOf st.pols now cfg.policyTTL s.doc k = some d → U d := fun k d h =>
     doc_of_window inv.docsU (viewOf_window trace now cfg.policyTTL s hcur inv.times (fun st k => st.doc k) st.pols inv.pols k) d h
-  have hall := mem_policiesForV U hsvc hnode (viewOf st.roles now cfg.roleTTL s.role)
+  have hall := mem_policiesForV U hsvc hnode htp (viewOf st.roles now cfg.roleTTL s.role)
     (viewOf st.pols now cfg.policyTTL s.doc) hdocU cfg.dc t
   unfold resolveLinks
-  by_cases hemp : (t.policies.isEmpty && t.svcs.isEmpty && t.roles.isEmpty && t.nodes.isEmpty) = true
+  by_cases hemp : t.noLinks = true
   · have hp : policiesForV (viewOf st.roles now cfg.roleTTL s.role) (viewOf st.pols now cfg.policyTTL s.doc) cfg.dc t = [] := by
       unfold policiesForV; rw [if_pos hemp]
     rw [if_pos hemp, hp]
@@ -276,8 +277,7 @@ theorem resolveLinks_up_spec (U : Doc → Prop) (hV : Versioned U) (hsvc : ∀ x
         filterByScope cfg.dc
           ((dedupeSorted (t.policies ++ (t.roles.filterMap (viewOf st.roles now cfg.roleTTL s.role)).flatMap (·.policies))).filterMap
               (viewOf st.pols now cfg.policyTTL s.doc) ++
-            ((dedupSvcs (t.svcs ++ (t.roles.filterMap (viewOf st.roles now cfg.roleTTL s.role)).flatMap (·.svcs))).map svcDoc ++
-              (dedupNodes (t.nodes ++ (t.roles.filterMap (viewOf st.roles now cfg.roleTTL s.role)).flatMap (·.nodes))).map nodeDoc)) := by
+            synthDocs t (t.roles.filterMap (viewOf st.roles now cfg.roleTTL s.role))) := by
       unfold policiesForV; rw [if_neg hemp]
     rw [hp] at hall ⊢
     have ⟨c1, c2, c3, c4, c5⟩ := compileRpc_spec hV
@@ -303,6 +303,7 @@ theorem resolveLinks_up_spec (U : Doc → Prop) (hV : Versioned U) (hsvc : ∀ x
 /-- one resolution with reachable servers and a waiting down policy: the answer is the cache-free
     resolution on the view, and the invariant is kept -/
 theorem resolveRpc_up_spec (U : Doc → Prop) (hV : Versioned U) (hsvc : ∀ x, U (svcDoc x)) (hnode : ∀ x, U (nodeDoc x))
+    (htp : ∀ x, U (tpDoc x))
     (cfg : RpcCfg) (hna : cfg.isAsync = false) (trace : List Snap) (now : Nat) (s : Store) (st : RpcState)
     (inv : RpcInv U trace now st) (hcur : (now, s) ∈ trace) (secret : Bytes) :
     (resolveRpc cfg true s now st secret).2 =
@@ -326,7 +327,7 @@ theorem resolveRpc_up_spec (U : Doc → Prop) (hV : Versioned U) (hsvc : ∀ x, 
     | none => exact ⟨rfl, invI⟩
     | some t =>
       simp only
-      have ⟨l1, l2⟩ := resolveLinks_up_spec U hV hsvc hnode cfg hna trace now s _ invI hcur t
+      have ⟨l1, l2⟩ := resolveLinks_up_spec U hV hsvc hnode htp cfg hna trace now s _ invI hcur t
       refine ⟨?_, l2⟩
       rw [l1]
       cases compileFresh (policiesForV (viewOf st.roles now cfg.roleTTL s.role)
